@@ -3,14 +3,14 @@
 import numpy as np
 from hypothesis import strategies as st
 
-from .. import gen, sut, tol
+from .. import env, gen, sut, tol
 from ..core import Outcome
 
 ID = "C10"
 LEVEL = "exploration"
 RULE = (
     "Hypothesis draws profiles (closures with n up to 12 (one case in six: up to 80, i.e. ~160 nodes), free arrays with up to 24 nodes, constants), a grid, halo, modes, a source, "
-    "a tower, footprint or dispersion, numerical or analytic (constant profiles), precision, and an ordered selection of distinct "
+    "a tower, footprint (one in three answered by a second call from the Green's-function cache) or dispersion, numerical or analytic (constant profiles), precision, and an ordered selection of distinct "
     "levels (ascending / descending / shuffled, with or without node 0 and the top node) passed as Python int, NumPy integer scalar, "
     "list, tuple-free int32 or int64 array. Oracle: slice k of the multi-level result equals the single-level call for levels[k] and "
     "slice levels[k] of the full-column call (<= 1e-13 of the field maximum; bit-identity is counted), the returned height of slice k "
@@ -46,6 +46,7 @@ def _case(draw):
     nz = len(z)
     case["analytic"] = analytic
     case["footprint"] = draw(st.booleans())
+    case["cached"] = draw(st.integers(0, 2)) == 0  # footprint requests: answered from the Green's-function cache
     case["halo"] = draw(gen.halo(case))
     px, py, _ = gen.pad_widths(case, case["halo"]["value"])
     case["modes"] = draw(gen.modes(case, px, py))
@@ -110,6 +111,22 @@ def check_case(case):
     rel = 1e-13 if case["precision"] == "double" else 1e-6
 
     grid, conc, flx = sut.S(q0, z, prof, dom, _levels_arg(lv, typ), **kw)
+    if fpm and case.get("cached"):
+        # the same request served from the Green's-function cache (stored by a first call, read back by a second):
+        # what comes back must still be the requested levels with their own heights
+        import shutil
+        import tempfile
+
+        from bldfm.cache import GreensFunctionCache
+
+        d = tempfile.mkdtemp(prefix="c10-cache-", dir=str(env.scratch()))
+        try:
+            cache = GreensFunctionCache(d)
+            sut.S(q0, z, prof, dom, _levels_arg(lv, typ), cache=cache, **kw)
+            grid, conc, flx = sut.S(q0, z, prof, dom, _levels_arg(lv, typ), cache=cache, **kw)
+        finally:
+            shutil.rmtree(d, ignore_errors=True)
+        out.label("served-from-cache")
     X, Y, Z = grid
     want_shape = (ny, nx) if len(lv) == 1 else (len(lv), ny, nx)
     for name, a in (("conc", conc), ("flx", flx), ("X", X), ("Y", Y), ("Z", Z)):
